@@ -21,5 +21,12 @@ CHECKS = {
         design_ref="DESIGN.md section 3, C13",
         note="trusted base: CPython, NumPy, mpmath, the harness; value space bounded by the alphabets; NaN operands excluded",
     ),
+    "C12": dict(
+        engine="lattice",
+        technique="bounded exhaustive enumeration of coordinate-system pairing x backend x stored-coordinate pair class x call form x tolerance pair; stored-coordinate equality model plus coherence laws evaluated on every pair",
+        text="For every dimension, all 4/36/144 system pairings, four backends and pair classes built from stored coordinates (identical, one/two/all components different, nearly equal, exactly equal across systems), the check evaluates reflexivity, symmetry, the stored-coordinate iff, != as the negation of ==, the isclose laws over a tolerance grid, and agreement of operator / numpy-function / method forms element by element.",
+        design_ref="DESIGN.md section 3, C12",
+        note="trusted base: CPython, NumPy, Awkward, the harness; NaN-free operands; mixed-system truth values are taken from the implementation (only coherence is asserted there)",
+    ),
 }
 NOT_YET = {}
